@@ -386,7 +386,7 @@ def run_set(ctx, kind, indels, ads, reads, lookups, dumps, extra_perms, dump):
     outs = []
     for rd, m_real in zip(reads, real):
         m = ix.match_to(rd) if "N" in rd.upper() else m_real
-        if m is not None and "N" in rd.upper():
+        if m is not None and "N" in rd.upper() and show(adapters, m) != show(adapters, m_real):
             soundness(ctx, kind, indels, ads, adapters, rd, m, "index, always-true k-mer finder")
         outs.append(show(adapters, m))
     for a, f in zip(adapters, finders):
@@ -460,6 +460,7 @@ FIXED_SETS = [
     ("prefix", False, [("TCGTACGT", 0.125), ("CCGTACGT", 0.125), ("ACGTACGT", 0.125)], ["ACGTACGTAAAA", "ACGTACGT", "TCGTACGTAA", "GCGTACGTAA", "NCGTACGTAA"]),
     ("suffix", False, [("TCGTACGT", 0.125), ("CCGTACGT", 0.125), ("ACGTACGT", 0.125)], ["AAAAACGTACGA", "AAAAACGTACGT"]),
     ("prefix", False, [("ACGTACGT", 0.125), ("TCGTACGT", 0.125), ("CCGTACGT", 0.125)], ["ACGTACGTAAAA", "GCGTACGTAA"]),
+    ("prefix", True, [("ACGTACGT", 0.125), ("TTTTGGGG", 0.125)], ["ACGTACGTN", "ACGTACGTNA", "ACGTACGNT", "ACGTACGTTA"]),
     ("prefix", False, [("ACGT", 0.0), ("ACGTAC", 0.0)], ["ACGTAC", "ACGT", "ACGTA", "ACG", ""]),
     ("suffix", False, [("ACGT", 0.0), ("ACACGT", 0.0)], ["ACACGT", "ACGT", "CACGT", "CGT", ""]),
 ]
